@@ -966,7 +966,8 @@ pub fn request_ips() -> Vec<Option<String>> {
 }
 
 pub fn request_methods() -> Vec<Option<String>> {
-    [None, Some("GET"), Some("POST"), Some("PUT"), Some("get")]
+    // Some("") is not None: an absent method counts as GET, an empty one is the empty method
+    [None, Some("GET"), Some("POST"), Some("PUT"), Some("get"), Some("")]
         .iter()
         .map(|h| h.map(|s| s.to_string()))
         .collect()
